@@ -150,13 +150,14 @@ class IOBase(Communicator):
 
         self.is_connected MUST be set to False by implementors
         """
+        if not self._last_error:
+            # make sure the reconnect callbacks are called on the next successful connect,
+            # also when the connection was lost without an error being logged before.
+            # this must be done before is_connected is False: from then on an other thread may reconnect
+            self._last_error = 'disconnected'
         self._conn.disconnect()
         self._conn = None
         self.is_connected = False
-        if not self._last_error:
-            # make sure the reconnect callbacks are called on the next successful connect,
-            # also when the connection was lost without an error being logged before
-            self._last_error = 'disconnected'
 
     def doPoll(self):
         self.read_is_connected()
